@@ -1,15 +1,18 @@
 import JugModel.Lemmas.ExecOnce
 import JugModel.Model.ExecScan
 /-!
-Completeness of failure-free runs: the joint invariant of the protocol state and the scan ghost.
+Completeness of runs without stops and crashes - with or without failing tasks: the joint invariant of the protocol state
+and the scan ghost.
 
-For every task `t < n`, at every moment of a clean history, one of
+For every task `t < n`, at every moment of such a history, one of
 * `t` has a result,
 * a (scan-)dependency of `t` has no result yet,
-* some participating worker (index `< W`) that has not left with status 0 is inside a critical section, or has not yet
-  accounted for `t` since it last left one.
-When every participating worker has left with status 0 the third alternative is gone, and well-foundedness of the
-dependency relation gives: every task has a result.
+* the function of `t` has raised at some point,
+* some participating worker (index `< W`) that has not left yet is inside a critical section, or has not yet accounted
+  for `t` since it last left one.
+When every participating worker has left, the last alternative is gone, and well-foundedness of the dependency relation
+gives: every task has a result or is *blocked* (it failed, or depends on a blocked task).
+Failing tasks are allowed for workers running with --keep-going (the others leave by the exception and are exempt).
 -/
 set_option linter.unusedVariables false
 namespace Jug.Exec
@@ -17,38 +20,58 @@ variable {V : Type} [DecidableEq V]
 
 def busy (x : WSt V) : Bool := (csTask x).isSome
 
-structure CInv (n W : Nat) (sdeps : Task → List Task) (s : Sys V) (sc : Scan) : Prop where
+/-- events of histories without stop requests, crashes and operator actions; a task may fail only in a --keep-going worker -/
+def FClean (fl : Worker → Flags) : Ev V → Prop
+  | .endExc w _ => (fl w).keepGoing = true
+  | .stop _ _ => False
+  | .crash _ => False
+  | .removeLocks => False
+  | .removeFailedLocks => False
+  | _ => True
+
+theorem fclean_of_clean (fl : Worker → Flags) {e : Ev V} (h : Clean e) : FClean fl e := by
+  cases e <;> simp_all [Clean, FClean]
+
+theorem legal_of_fclean (fl : Worker → Flags) (s : Sys V) (e : Ev V) (hc : FClean fl e) : Legal s e := by
+  cases e <;> simp_all [FClean, Legal]
+
+def kgOf (fl : Worker → Flags) : Worker → Bool := fun w => (fl w).keepGoing
+
+structure CInv (n W : Nat) (sdeps : Task → List Task) (fl : Worker → Flags) (s : Sys V) (sc : Scan) : Prop where
   inv : Inv s
-  nofailL : ∀ t w, s.lock t ≠ .failed w
   nocrash : ∀ w, s.wk w ≠ .crashed
-  nofailT : ∀ w t, s.wk w ≠ .failedTask t
   nostop : ∀ w o k, s.wk w ≠ .stopping o k
+  noraise : ∀ w, s.wk w ≠ .raising
+  ftkg : ∀ w t, s.wk w = .failedTask t → (fl w).keepGoing = true
+  ft : ∀ w t, s.wk w = .failedTask t → sc.failedT t = true
+  lf : ∀ t w, s.lock t = .failed w → sc.failedT t = true
   outside : ∀ w, W ≤ w → s.wk w = .idle
   hd : ∀ w t, s.wk w = .holdingDone t → s.res t ≠ none
-  dn : ∀ w t, sc.done w t = true → s.res t ≠ none ∨ ∃ w', csTask (s.wk w') = some t
-  cov : ∀ t, t < n → s.res t ≠ none ∨ (∃ d, d ∈ sdeps t ∧ s.res d = none) ∨
-          ∃ w, w < W ∧ s.wk w ≠ .exited 0 ∧ (busy (s.wk w) = true ∨ sc.flagged w t = false)
+  dn : ∀ w t, sc.done w t = true → s.res t ≠ none ∨ (∃ w', csTask (s.wk w') = some t) ∨ sc.failedT t = true
+  cov : ∀ t, t < n → s.res t ≠ none ∨ (∃ d, d ∈ sdeps t ∧ s.res d = none) ∨ sc.failedT t = true ∨
+          ∃ w, w < W ∧ (∀ c, s.wk w ≠ .exited c) ∧ (busy (s.wk w) = true ∨ sc.flagged w t = false)
 
-/-! ### how one clean accepted event changes things -/
+/-! ### how one accepted event of such a history changes things -/
 
-/-- the simple clean-history facts are preserved -/
-theorem clean_simple (P : Prog V) (fl : Worker → Flags) {s s' : Sys V} {e : Ev V} (hc : Clean e)
+theorem fclean_simple (P : Prog V) (fl : Worker → Flags) {s s' : Sys V} {e : Ev V} (hc : FClean fl e)
     (hs : accept P fl s e = some s')
-    (h1 : ∀ t w, s.lock t ≠ .failed w) (h2 : ∀ w, s.wk w ≠ .crashed) (h3 : ∀ w t, s.wk w ≠ .failedTask t)
-    (h4 : ∀ w o k, s.wk w ≠ .stopping o k) :
-    (∀ t w, s'.lock t ≠ .failed w) ∧ (∀ w, s'.wk w ≠ .crashed) ∧ (∀ w t, s'.wk w ≠ .failedTask t) ∧
-    (∀ w o k, s'.wk w ≠ .stopping o k) := by
-  cases e <;> simp only [accept] at hs <;> (repeat' split at hs) <;> simp_all [Clean] <;> (try subst_vars) <;>
-    (refine ⟨?_, ?_, ?_, ?_⟩) <;> intros <;> (try simp only [upd]) <;> grind
+    (h2 : ∀ w, s.wk w ≠ .crashed) (h4 : ∀ w o k, s.wk w ≠ .stopping o k) (h5 : ∀ w, s.wk w ≠ .raising)
+    (h6 : ∀ w t, s.wk w = .failedTask t → (fl w).keepGoing = true) :
+    (∀ w, s'.wk w ≠ .crashed) ∧ (∀ w o k, s'.wk w ≠ .stopping o k) ∧ (∀ w, s'.wk w ≠ .raising) ∧
+    (∀ w t, s'.wk w = .failedTask t → (fl w).keepGoing = true) := by
+  cases e <;> simp only [accept] at hs <;> (repeat' split at hs) <;> simp_all [FClean] <;> (try subst_vars) <;>
+    (refine ⟨?_, ?_, ?_, ?_⟩) <;> intros <;> (try simp only [upd] at *) <;> grind
 
-/-- a worker inside a critical section stays there, or leaves it by `unlock` with the result in the store -/
-theorem busy_step (P : Prog V) (fl : Worker → Flags) {s s' : Sys V} {e : Ev V} (hc : Clean e)
+/-- a worker inside a critical section stays there, or leaves it - by `unlock` with the result in the store, or after its
+    task failed (by `unlock` or, with --keep-failed, `fail`) -/
+theorem busy_step (P : Prog V) (fl : Worker → Flags) {s s' : Sys V} {e : Ev V} (hc : FClean fl e)
     (hs : accept P fl s e = some s') (hi : Inv s) (hhd : ∀ w t, s.wk w = .holdingDone t → s.res t ≠ none)
-    (h3 : ∀ w t, s.wk w ≠ .failedTask t) (h4 : ∀ w o k, s.wk w ≠ .stopping o k)
+    (h4 : ∀ w o k, s.wk w ≠ .stopping o k) (h6 : ∀ w t, s.wk w = .failedTask t → (fl w).keepGoing = true)
     (w : Worker) (t : Task) (hb : csTask (s.wk w) = some t) :
-    csTask (s'.wk w) = some t ∨ (s'.res t ≠ none ∧ e = .unlock w t ∧ s'.wk w = .idle) := by
+    csTask (s'.wk w) = some t ∨
+      (s'.wk w = .idle ∧ (e = .unlock w t ∨ e = .markFailed w t) ∧ (s'.res t ≠ none ∨ s.wk w = .failedTask t)) := by
   have hst := hi.stored
-  cases e <;> simp only [accept] at hs <;> (repeat' split at hs) <;> simp_all [Clean] <;> (try subst_vars) <;>
+  cases e <;> simp only [accept] at hs <;> (repeat' split at hs) <;> simp_all [FClean] <;> (try subst_vars) <;>
     (try simp only [upd]) <;> grind [csTask]
 
 /-- the only way into `exited c` is the `exit` event -/
@@ -59,17 +82,88 @@ theorem exited_origin (P : Prog V) (fl : Worker → Flags) {s s' : Sys V} {e : E
     (try simp only [upd] at h) <;> (try (split at h)) <;> (try simp_all) <;> grind
 
 /-- scan flags of workers other than the event's worker are untouched -/
-theorem scan_frame (sdeps : Task → List Task) (sc : Scan) (e : Ev V) (w : Worker) (hw : evWorker e ≠ some w) :
-    (scanStep sdeps sc e).done w = sc.done w ∧ (scanStep sdeps sc e).stuck w = sc.stuck w := by
-  cases e <;> simp_all [evWorker, scanStep, Scan.setDone] <;> (try (rename_i b; cases b <;> simp_all [scanStep, Scan.setDone])) <;>
-    (try (constructor <;> funext t' <;> simp_all)) <;> grind
+theorem scan_frame (sdeps : Task → List Task) (kg : Worker → Bool) (sc : Scan) (e : Ev V) (w : Worker) (hw : evWorker e ≠ some w) :
+    (scanStep sdeps kg sc e).done w = sc.done w ∧ (scanStep sdeps kg sc e).stuck w = sc.stuck w := by
+  cases e with
+  | canLoad w0 t0 b =>
+    have : ¬ w = w0 := fun h => hw (by simp [evWorker, h])
+    cases b <;> simp [scanStep, Scan.setDone, this]
+  | lock w0 t0 b =>
+    have : ¬ w = w0 := fun h => hw (by simp [evWorker, h])
+    cases b <;> simp [scanStep, Scan.setDone, this]
+  | load w0 t0 v =>
+    have : ¬ w = w0 := fun h => hw (by simp [evWorker, h])
+    simp [scanStep, Scan.setDone, this]
+  | dump w0 t0 v =>
+    have : ¬ w = w0 := fun h => hw (by simp [evWorker, h])
+    simp [scanStep, Scan.setDone, this]
+  | unlock w0 t0 =>
+    have : ¬ w = w0 := fun h => hw (by simp [evWorker, h])
+    simp [scanStep, this]
+  | markFailed w0 t0 =>
+    have : ¬ w = w0 := fun h => hw (by simp [evWorker, h])
+    simp [scanStep, this]
+  | endExc w0 t0 =>
+    have : ¬ w = w0 := fun h => hw (by simp [evWorker, h])
+    simp only [scanStep]
+    split <;> (constructor <;> funext t' <;> simp [Scan.setDone, Scan.exempt, this])
+  | stop w0 k =>
+    have : ¬ w = w0 := fun h => hw (by simp [evWorker, h])
+    simp [scanStep, Scan.exempt, this]
+  | begin_ w0 t0 => simp [scanStep]
+  | endOk w0 t0 v => simp [scanStep]
+  | exit w0 c => simp [scanStep]
+  | crash w0 => simp [scanStep]
+  | removeLocks => simp [scanStep]
+  | removeFailedLocks => simp [scanStep]
+
+/-- once failed, always recorded as failed -/
+theorem failedT_mono (sdeps : Task → List Task) (kg : Worker → Bool) (sc : Scan) (e : Ev V) (t : Task)
+    (h : sc.failedT t = true) : (scanStep sdeps kg sc e).failedT t = true := by
+  cases e with
+  | canLoad w0 t0 b => cases b <;> simpa [scanStep, Scan.setDone] using h
+  | lock w0 t0 b => cases b <;> simpa [scanStep, Scan.setDone] using h
+  | endExc w0 t0 =>
+    simp only [scanStep]
+    split <;> simp [Scan.setDone, Scan.exempt, h]
+  | load w0 t0 v => simpa [scanStep, Scan.setDone] using h
+  | dump w0 t0 v => simpa [scanStep, Scan.setDone] using h
+  | unlock w0 t0 => simpa [scanStep] using h
+  | markFailed w0 t0 => simpa [scanStep] using h
+  | stop w0 k => simpa [scanStep, Scan.exempt] using h
+  | begin_ w0 t0 => simpa [scanStep] using h
+  | endOk w0 t0 v => simpa [scanStep] using h
+  | exit w0 c => simpa [scanStep] using h
+  | crash w0 => simpa [scanStep] using h
+  | removeLocks => simpa [scanStep] using h
+  | removeFailedLocks => simpa [scanStep] using h
+
+theorem failedT_endExc (sdeps : Task → List Task) (kg : Worker → Bool) (sc : Scan) (w : Worker) (t : Task) :
+    (scanStep (V := V) sdeps kg sc (.endExc w t)).failedT t = true := by
+  simp only [scanStep]
+  split <;> simp [Scan.setDone, Scan.exempt]
+
+/-- `failedTask t` is entered only by the `endExc` event -/
+theorem failedTask_origin (P : Prog V) (fl : Worker → Flags) {s s' : Sys V} {e : Ev V}
+    (hs : accept P fl s e = some s') (w : Worker) (t : Task) (h : s'.wk w = .failedTask t) :
+    s.wk w = .failedTask t ∨ e = .endExc w t := by
+  cases e <;> simp only [accept] at hs <;> (repeat' split at hs) <;> simp_all <;> (try subst_vars) <;>
+    (try simp only [upd] at h) <;> (try (split at h)) <;> (try simp_all) <;> grind
+
+/-- a lock becomes `failed` only by `fail()` of a worker whose task failed -/
+theorem failedLock_origin (P : Prog V) (fl : Worker → Flags) {s s' : Sys V} {e : Ev V} (hc : FClean fl e)
+    (hs : accept P fl s e = some s') (t : Task) (w : Worker) (h : s'.lock t = .failed w) :
+    s.lock t = .failed w ∨ s.wk w = .failedTask t := by
+  cases e <;> simp only [accept] at hs <;> (repeat' split at hs) <;> simp_all [FClean] <;> (try subst_vars) <;>
+    (try simp only [upd] at h) <;> (try (split at h)) <;> (try simp_all) <;> grind
 
 /-- a new `done` flag is justified in the new state -/
 theorem done_step (P : Prog V) (fl : Worker → Flags) (sdeps : Task → List Task) {s s' : Sys V} {e : Ev V} (sc : Scan)
-    (hc : Clean e) (hs : accept P fl s e = some s') (hi : Inv s) (h1 : ∀ t w, s.lock t ≠ .failed w)
+    (hc : FClean fl e) (hs : accept P fl s e = some s') (hi : Inv s)
+    (hlf : ∀ t w, s.lock t = .failed w → sc.failedT t = true)
     (h2 : ∀ w, s.wk w ≠ .crashed)
-    (w : Worker) (t : Task) (hd : (scanStep sdeps sc e).done w t = true) :
-    sc.done w t = true ∨ s'.res t ≠ none ∨ ∃ w', csTask (s'.wk w') = some t := by
+    (w : Worker) (t : Task) (hd : (scanStep sdeps (kgOf fl) sc e).done w t = true) :
+    sc.done w t = true ∨ s'.res t ≠ none ∨ (∃ w', csTask (s'.wk w') = some t) ∨ (scanStep sdeps (kgOf fl) sc e).failedT t = true := by
   cases e with
   | canLoad w0 t0 b =>
     cases b
@@ -103,7 +197,6 @@ theorem done_step (P : Prog V) (fl : Worker → Flags) (sdeps : Task → List Ta
       split at hd
       · rename_i hwt
         obtain ⟨rfl, rfl⟩ := hwt
-        right; right
         simp only [accept] at hs
         split at hs
         · split at hs
@@ -111,13 +204,17 @@ theorem done_step (P : Prog V) (fl : Worker → Flags) (sdeps : Task → List Ta
           · rename_i hb
             simp at hs
             subst hs
-            -- the lock is not free: it is held by a live worker inside the critical section of `t`
+            -- the lock is not free: held by a live worker inside the critical section of `t`, or left failed
             have hnf : s.lock t ≠ .free := by
               intro hf; simp [hf] at hb
             cases hl : s.lock t with
             | free => exact absurd hl hnf
-            | failed w' => exact absurd hl (h1 t w')
+            | failed w' =>
+              right; right; right
+              have := hlf t w' hl
+              simpa [scanStep, Scan.setDone] using this
             | held w' =>
+              right; right; left
               rcases hi.held_cs w' t hl with h | h
               · exact ⟨w', h⟩
               · exact absurd h (h2 w')
@@ -133,10 +230,17 @@ theorem done_step (P : Prog V) (fl : Worker → Flags) (sdeps : Task → List Ta
       simp only [accept] at hs
       (repeat' split at hs) <;> simp_all <;> (try subst_vars) <;> simp [upd]
     · left; exact hd
-  | stop w0 k => simp [Clean] at hc
+  | endExc w0 t0 =>
+    have hkg : kgOf fl w0 = true := by simpa [FClean, kgOf] using hc
+    simp only [scanStep, hkg, if_true, Scan.setDone] at hd ⊢
+    split at hd
+    · rename_i hwt
+      obtain ⟨rfl, rfl⟩ := hwt
+      right; right; right; simp
+    · left; exact hd
+  | stop w0 k => simp [FClean] at hc
   | begin_ w0 t0 => left; simpa [scanStep] using hd
   | endOk w0 t0 v => left; simpa [scanStep] using hd
-  | endExc w0 t0 => left; simpa [scanStep] using hd
   | unlock w0 t0 => left; simpa [scanStep] using hd
   | markFailed w0 t0 => left; simpa [scanStep] using hd
   | exit w0 c => left; simpa [scanStep] using hd
@@ -158,22 +262,24 @@ theorem hd_step (P : Prog V) (fl : Worker → Flags) {s s' : Sys V} {e : Ev V}
 
 /-- what the event's own worker `w` can do to a task it has not accounted for -/
 theorem flag_step (P : Prog V) (fl : Worker → Flags) (sdeps : Task → List Task) (n : Nat) {s s' : Sys V} {e : Ev V} (sc : Scan)
-    (hc : Clean e) (hs : accept P fl s e = some s') (hg : scanGuard n sc e = true)
-    (hi : Inv s) (h1 : ∀ t w, s.lock t ≠ .failed w) (h2 : ∀ w, s.wk w ≠ .crashed) (h3 : ∀ w t, s.wk w ≠ .failedTask t)
-    (w : Worker) (hw : evWorker e = some w) (t : Task) (ht : t < n) (hne : s.wk w ≠ .exited 0)
+    (hc : FClean fl e) (hs : accept P fl s e = some s') (hg : scanGuard n sc e = true)
+    (hi : Inv s) (hlf : ∀ t w, s.lock t = .failed w → sc.failedT t = true) (h2 : ∀ w, s.wk w ≠ .crashed)
+    (w : Worker) (hw : evWorker e = some w) (t : Task) (ht : t < n) (hne : ∀ c, s.wk w ≠ .exited c)
     (hf : sc.flagged w t = false) :
-    ((scanStep sdeps sc e).flagged w t = false ∧ s'.wk w ≠ .exited 0) ∨ busy (s'.wk w) = true ∨ s'.res t ≠ none ∨
-      (∃ d, d ∈ sdeps t ∧ s'.res d = none) ∨ (∃ w', csTask (s'.wk w') = some t) := by
+    ((scanStep sdeps (kgOf fl) sc e).flagged w t = false ∧ ∀ c, s'.wk w ≠ .exited c) ∨ busy (s'.wk w) = true ∨ s'.res t ≠ none ∨
+      (∃ d, d ∈ sdeps t ∧ s'.res d = none) ∨ (∃ w', csTask (s'.wk w') = some t) ∨
+      (scanStep sdeps (kgOf fl) sc e).failedT t = true := by
   have hf' : sc.done w t = false ∧ sc.stuck w t = false := by
     simpa [Scan.flagged] using hf
+  have hx : (∀ c, e ≠ .exit w c) → ∀ c, s'.wk w ≠ .exited c := by
+    intro hnx c hx
+    rcases exited_origin P fl hs w c hx with h | h
+    · exact hne c h
+    · exact hnx c h
   cases e with
   | canLoad w0 t0 b =>
     simp only [evWorker, Option.some.injEq] at hw; subst hw
-    have hx : s'.wk w0 ≠ .exited 0 := by
-      intro hx
-      rcases exited_origin P fl hs w0 0 hx with h | h
-      · exact hne h
-      · simp at h
+    have hx' := hx (by intro c; simp)
     have hr : s'.res = s.res := by
       rcases res_of_accept P fl s s' _ hs with h | ⟨_, _, _, h, _⟩
       · exact h
@@ -192,8 +298,7 @@ theorem flag_step (P : Prog V) (fl : Worker → Flags) (sdeps : Task → List Ta
         | none => rfl
         | some v => rw [hrt] at hb; simp at hb
       · left
-        refine ⟨?_, hx⟩
-        have hm' : (sdeps t).contains t0 = false := by simpa using hm
+        refine ⟨?_, hx'⟩
         have hm2 : ¬ t0 ∈ sdeps t := by simpa using hm
         simp [Scan.flagged, scanStep, hf'.1, hf'.2, hm2]
     · by_cases htt : t0 = t
@@ -204,11 +309,12 @@ theorem flag_step (P : Prog V) (fl : Worker → Flags) (sdeps : Task → List Ta
         | none => rw [hrt] at hb; simp at hb
         | some v => simp
       · left
-        refine ⟨?_, hx⟩
+        refine ⟨?_, hx'⟩
         have : ¬ t = t0 := fun h => htt h.symm
         simp only [Scan.flagged, scanStep, Scan.setDone, hf'.1, hf'.2, this, and_false, if_false, Bool.or_false]
   | load w0 t0 v =>
     simp only [evWorker, Option.some.injEq] at hw; subst hw
+    have hx' := hx (by intro c; simp)
     have hres : s' = s ∧ s.res t0 = some v := by
       simp only [accept] at hs
       (repeat' split at hs) <;> simp_all
@@ -217,9 +323,10 @@ theorem flag_step (P : Prog V) (fl : Worker → Flags) (sdeps : Task → List Ta
     · subst htt; right; right; left; simp [hr]
     · left
       have : ¬ t = t0 := fun h => htt h.symm
-      exact ⟨by simp [Scan.flagged, scanStep, Scan.setDone, hf'.1, hf'.2, this], hne⟩
+      exact ⟨by simp [Scan.flagged, scanStep, Scan.setDone, hf'.1, hf'.2, this], hx'⟩
   | lock w0 t0 b =>
     simp only [evWorker, Option.some.injEq] at hw; subst hw
+    have hx' := hx (by intro c; simp)
     cases b
     · have hres : s' = s ∧ s.lock t0 ≠ .free := by
         simp only [accept] at hs
@@ -227,17 +334,20 @@ theorem flag_step (P : Prog V) (fl : Worker → Flags) (sdeps : Task → List Ta
       obtain ⟨rfl, hl⟩ := hres
       by_cases htt : t0 = t
       · subst htt
-        right; right; right; right
         cases hlk : s'.lock t0 with
         | free => exact absurd hlk hl
-        | failed w' => exact absurd hlk (h1 t0 w')
+        | failed w' =>
+          right; right; right; right; right
+          have := hlf t0 w' hlk
+          simpa [scanStep, Scan.setDone] using this
         | held w' =>
+          right; right; right; right; left
           rcases hi.held_cs w' t0 hlk with h | h
           · exact ⟨w', h⟩
           · exact absurd h (h2 w')
       · left
         have : ¬ t = t0 := fun h => htt h.symm
-        exact ⟨by simp [Scan.flagged, scanStep, Scan.setDone, hf'.1, hf'.2, this], hne⟩
+        exact ⟨by simp [Scan.flagged, scanStep, Scan.setDone, hf'.1, hf'.2, this], hx'⟩
     · right; left
       simp only [accept] at hs
       (repeat' split at hs) <;> simp_all <;> (try subst_vars) <;> simp [upd, busy, csTask]
@@ -251,6 +361,11 @@ theorem flag_step (P : Prog V) (fl : Worker → Flags) (sdeps : Task → List Ta
     right; left
     simp only [accept] at hs
     (repeat' split at hs) <;> simp_all <;> (try subst_vars) <;> simp [upd, busy, csTask]
+  | endExc w0 t0 =>
+    simp only [evWorker, Option.some.injEq] at hw; subst hw
+    right; left
+    simp only [accept] at hs
+    (repeat' split at hs) <;> simp_all <;> (try subst_vars) <;> simp [upd, busy, csTask]
   | dump w0 t0 v =>
     simp only [evWorker, Option.some.injEq] at hw; subst hw
     right; left
@@ -259,37 +374,21 @@ theorem flag_step (P : Prog V) (fl : Worker → Flags) (sdeps : Task → List Ta
   | unlock w0 t0 =>
     simp only [evWorker, Option.some.injEq] at hw; subst hw
     left
-    refine ⟨by simp [Scan.flagged, scanStep, hf'.1], ?_⟩
-    intro hx
-    rcases exited_origin P fl hs w0 0 hx with h | h
-    · exact hne h
-    · simp at h
+    exact ⟨by simp [Scan.flagged, scanStep, hf'.1], hx (by intro c; simp)⟩
   | markFailed w0 t0 =>
     simp only [evWorker, Option.some.injEq] at hw; subst hw
-    exfalso
-    simp only [accept] at hs
-    (repeat' split at hs) <;> simp_all
+    left
+    exact ⟨by simp [Scan.flagged, scanStep, hf'.1], hx (by intro c; simp)⟩
   | exit w0 c =>
     simp only [evWorker, Option.some.injEq] at hw; subst hw
-    cases c with
-    | zero =>
-      exfalso
-      simp only [scanGuard, List.all_eq_true, List.mem_range] at hg
-      have := hg t ht
-      simp [hf] at this
-    | succ c =>
-      left
-      refine ⟨by simpa [scanStep] using hf, ?_⟩
-      intro hx
-      rcases exited_origin P fl hs w0 0 hx with h | h
-      · exact hne h
-      · simp at h
-  | endExc w0 t0 => simp [Clean] at hc
-  | stop w0 k => simp [Clean] at hc
-  | crash w0 => simp [Clean] at hc
+    exfalso
+    simp only [scanGuard, List.all_eq_true, List.mem_range] at hg
+    have := hg t ht
+    simp [hf] at this
+  | stop w0 k => simp [FClean] at hc
+  | crash w0 => simp [FClean] at hc
   | removeLocks => simp [evWorker] at hw
   | removeFailedLocks => simp [evWorker] at hw
-
 
 theorem busy_lt (W : Nat) {s : Sys V} (ho : ∀ w, W ≤ w → s.wk w = .idle) (w : Worker) (t : Task)
     (h : csTask (s.wk w) = some t) : w < W := by
@@ -297,47 +396,60 @@ theorem busy_lt (W : Nat) {s : Sys V} (ho : ∀ w, W ≤ w → s.wk w = .idle) (
   · exact h1
   · rw [ho w h1] at h; simp [csTask] at h
 
-theorem busy_not_exited {x : WSt V} {t : Task} (h : csTask x = some t) : x ≠ .exited 0 ∧ busy x = true := by
+theorem busy_not_exited {x : WSt V} {t : Task} (h : csTask x = some t) : (∀ c, x ≠ .exited c) ∧ busy x = true := by
   constructor
-  · intro hx; rw [hx] at h; simp [csTask] at h
+  · intro c hx; rw [hx] at h; simp [csTask] at h
   · simp [busy, h]
 
-/-- **preservation of the completeness invariant** by one clean accepted event of a participating worker whose
-    scan obligation holds -/
+/-- **preservation of the completeness invariant** by one accepted event of a participating worker whose scan obligation holds -/
 theorem accept_cinv (P : Prog V) (fl : Worker → Flags) (n W : Nat) (sdeps : Task → List Task) (s s' : Sys V) (sc : Scan) (e : Ev V)
-    (h : CInv n W sdeps s sc) (hc : Clean e) (hwW : ∀ w, evWorker e = some w → w < W)
-    (hg : scanGuard n sc e = true) (hs : accept P fl s e = some s') : CInv n W sdeps s' (scanStep sdeps sc e) := by
-  have hinv' : Inv s' := accept_inv P fl s s' e h.inv (legal_of_clean s e hc) hs
-  obtain ⟨c1, c2, c3, c4⟩ := clean_simple P fl hc hs h.nofailL h.nocrash h.nofailT h.nostop
+    (h : CInv n W sdeps fl s sc) (hc : FClean fl e) (hwW : ∀ w, evWorker e = some w → w < W)
+    (hg : scanGuard n sc e = true) (hs : accept P fl s e = some s') : CInv n W sdeps fl s' (scanStep sdeps (kgOf fl) sc e) := by
+  have hinv' : Inv s' := accept_inv P fl s s' e h.inv (legal_of_fclean fl s e hc) hs
+  obtain ⟨c2, c4, c5, c6⟩ := fclean_simple P fl hc hs h.nocrash h.nostop h.noraise h.ftkg
   have hout' : ∀ w, W ≤ w → s'.wk w = .idle := by
     intro w hw
     have : evWorker e ≠ some w := by
       intro he; exact absurd (hwW w he) (Nat.not_lt.mpr hw)
     rw [wk_of_accept P fl s s' e hs w this]; exact h.outside w hw
   have hmono := fun (t : Task) (h : s.res t ≠ none) => res_mono P fl hs t h
-  have hbusy := busy_step P fl hc hs h.inv h.hd h.nofailT h.nostop
-  refine ⟨hinv', c1, c2, c3, c4, hout', ?_, ?_, ?_⟩
+  have hfm := fun (t : Task) (h : sc.failedT t = true) => failedT_mono (V := V) sdeps (kgOf fl) sc e t h
+  have hbusy := busy_step P fl hc hs h.inv h.hd h.nostop h.ftkg
+  refine ⟨hinv', c2, c4, c5, c6, ?_, ?_, hout', ?_, ?_, ?_⟩
+  · -- failedTask implies recorded as failed
+    intro w t hw
+    rcases failedTask_origin P fl hs w t hw with h1 | h1
+    · exact hfm t (h.ft w t h1)
+    · subst h1; exact failedT_endExc sdeps (kgOf fl) sc w t
+  · -- failed locks only on failed tasks
+    intro t w hl
+    rcases failedLock_origin P fl hc hs t w hl with h1 | h1
+    · exact hfm t (h.lf t w h1)
+    · exact hfm t (h.ft w t h1)
   · exact fun w t hw => hd_step P fl hs h.hd w t hw
   · -- done flags stay justified
     intro w t hd
-    rcases done_step P fl sdeps sc hc hs h.inv h.nofailL h.nocrash w t hd with h1 | h1 | h1
-    · rcases h.dn w t h1 with h2 | ⟨w', h2⟩
+    rcases done_step P fl sdeps sc hc hs h.inv h.lf h.nocrash w t hd with h1 | h1 | h1 | h1
+    · rcases h.dn w t h1 with h2 | ⟨w', h2⟩ | h2
       · left; exact hmono t h2
-      · rcases hbusy w' t h2 with h3 | ⟨h3, _, _⟩
-        · right; exact ⟨w', h3⟩
+      · rcases hbusy w' t h2 with h3 | ⟨_, _, h3 | h3⟩
+        · right; left; exact ⟨w', h3⟩
         · left; exact h3
+        · right; right; exact hfm t (h.ft w' t h3)
+      · right; right; exact hfm t h2
     · left; exact h1
-    · right; exact h1
+    · right; left; exact h1
+    · right; right; exact h1
   · -- coverage
     intro t ht
-    rcases h.cov t ht with hA | ⟨d, hdm, hdn⟩ | ⟨w, hwlt, hwne, hwit⟩
+    rcases h.cov t ht with hA | ⟨d, hdm, hdn⟩ | hF | ⟨w, hwlt, hwne, hwit⟩
     · left; exact hmono t hA
     · -- a dependency had no result: it still has none, or it has just been stored by a worker that is still busy
       rcases res_of_accept P fl s s' e hs with hr | ⟨w, t', v, he, hwk, hr⟩
       · right; left; exact ⟨d, hdm, by rw [hr]; exact hdn⟩
       · by_cases htd : t' = d
         · subst htd
-          right; right
+          right; right; right
           have hb : csTask (s.wk w) = some t' := by simp [hwk, csTask]
           rcases hbusy w t' hb with h3 | ⟨_, he2, _⟩
           · exact ⟨w, busy_lt W hout' w t' h3, (busy_not_exited h3).1, Or.inl (busy_not_exited h3).2⟩
@@ -347,6 +459,7 @@ theorem accept_cinv (P : Prog V) (fl : Worker → Flags) (n W : Nat) (sdeps : Ta
           rw [hr]; simp only [upd]
           have : ¬ d = t' := fun h => htd h.symm
           simp [this, hdn]
+    · right; right; left; exact hfm t hF
     · by_cases he : evWorker e = some w
       · rcases hwit with hb | hf
         · -- the witness was busy
@@ -356,80 +469,166 @@ theorem accept_cinv (P : Prog V) (fl : Worker → Flags) (n W : Nat) (sdeps : Ta
             | none => simp [hcs] at hb
             | some t0 => exact ⟨t0, rfl⟩
           obtain ⟨t0, hb0⟩ := hb'
-          rcases hbusy w t0 hb0 with h3 | ⟨hres0, heq, hidle⟩
-          · right; right
+          rcases hbusy w t0 hb0 with h3 | ⟨hidle, heq, hwhy⟩
+          · right; right; right
             exact ⟨w, hwlt, (busy_not_exited h3).1, Or.inl (busy_not_exited h3).2⟩
           · -- it has just left its critical section: its stuck flags are reset
-            subst heq
-            cases hdone : sc.done w t with
+            have hstuck : (scanStep sdeps (kgOf fl) sc e).stuck w t = false := by
+              rcases heq with heq | heq <;> subst heq <;> simp [scanStep]
+            have hdone : (scanStep sdeps (kgOf fl) sc e).done w t = sc.done w t := by
+              rcases heq with heq | heq <;> subst heq <;> simp [scanStep]
+            cases hd0 : sc.done w t with
             | true =>
-              rcases h.dn w t hdone with h2 | ⟨w', h2⟩
+              rcases h.dn w t hd0 with h2 | ⟨w', h2⟩ | h2
               · left; exact hmono t h2
               · by_cases hww : w' = w
                 · subst hww
                   rw [hb0] at h2; simp only [Option.some.injEq] at h2; subst h2
-                  left; exact hres0
-                · rcases hbusy w' t h2 with h3 | ⟨h3, _, _⟩
-                  · right; right
+                  rcases hwhy with hwhy | hwhy
+                  · left; exact hwhy
+                  · right; right; left; exact hfm t0 (h.ft w' t0 hwhy)
+                · rcases hbusy w' t h2 with h3 | ⟨_, _, h3 | h3⟩
+                  · right; right; right
                     exact ⟨w', busy_lt W hout' w' t h3, (busy_not_exited h3).1, Or.inl (busy_not_exited h3).2⟩
                   · left; exact h3
+                  · right; right; left; exact hfm t (h.ft w' t h3)
+              · right; right; left; exact hfm t h2
             | false =>
-              right; right
-              refine ⟨w, hwlt, by rw [hidle]; simp, Or.inr ?_⟩
-              simp [Scan.flagged, scanStep, hdone]
-        · rcases flag_step P fl sdeps n sc hc hs hg h.inv h.nofailL h.nocrash h.nofailT w he t ht hwne hf with
-            ⟨h1, h2⟩ | h1 | h1 | h1 | ⟨w', h1⟩
-          · right; right; exact ⟨w, hwlt, h2, Or.inr h1⟩
-          · right; right
+              right; right; right
+              refine ⟨w, hwlt, by intro c; rw [hidle]; simp, Or.inr ?_⟩
+              simp [Scan.flagged, hstuck, hdone, hd0]
+        · rcases flag_step P fl sdeps n sc hc hs hg h.inv h.lf h.nocrash w he t ht hwne hf with
+            ⟨h1, h2⟩ | h1 | h1 | h1 | ⟨w', h1⟩ | h1
+          · right; right; right; exact ⟨w, hwlt, h2, Or.inr h1⟩
+          · right; right; right
             refine ⟨w, hwlt, ?_, Or.inl h1⟩
-            intro hx; rw [hx] at h1; simp [busy, csTask] at h1
+            intro c hx; rw [hx] at h1; simp [busy, csTask] at h1
           · left; exact h1
           · right; left; exact h1
-          · right; right
+          · right; right; right
             exact ⟨w', busy_lt W hout' w' t h1, (busy_not_exited h1).1, Or.inl (busy_not_exited h1).2⟩
+          · right; right; left; exact h1
       · -- the event is by somebody else: the witness is untouched
-        right; right
+        right; right; right
         have hwk := wk_of_accept P fl s s' e hs w he
-        have hfr := scan_frame sdeps sc e w he
-        refine ⟨w, hwlt, by rw [hwk]; exact hwne, ?_⟩
+        have hfr := scan_frame sdeps (kgOf fl) sc e w he
+        refine ⟨w, hwlt, by intro c; rw [hwk]; exact hwne c, ?_⟩
         rcases hwit with hb | hf
         · left; rw [hwk]; exact hb
         · right
           simp only [Scan.flagged] at hf ⊢
           rw [hfr.1, hfr.2]; exact hf
 
-theorem cinv_init (n W : Nat) (hW : 0 < W) (sdeps : Task → List Task) (res : Task → Option V) :
-    CInv n W sdeps (initSys res) Scan.init := by
-  refine ⟨inv_init res, ?_, ?_, ?_, ?_, ?_, ?_, ?_, ?_⟩ <;> intros <;> (try simp_all [initSys, Scan.init])
+theorem cinv_init (n W : Nat) (hW : 0 < W) (sdeps : Task → List Task) (fl : Worker → Flags) (res : Task → Option V) :
+    CInv n W sdeps fl (initSys res) Scan.init := by
+  refine ⟨inv_init res, ?_, ?_, ?_, ?_, ?_, ?_, ?_, ?_, ?_, ?_⟩ <;> intros <;> (try simp_all [initSys, Scan.init])
   right; right
-  exact ⟨0, hW, by simp [Scan.flagged]⟩
+  exact ⟨0, hW, Or.inr (by simp [Scan.flagged])⟩
 
-/-- the invariant along a whole clean history -/
-theorem cleanSteps_cinv (P : Prog V) (fl : Worker → Flags) (n W : Nat) (sdeps : Task → List Task) (evs : List (Ev V)) :
-    ∀ (s s' : Sys V) (sc : Scan), CInv n W sdeps s sc → CleanSteps P fl s evs s' →
-      (∀ e ∈ evs, ∀ w, evWorker e = some w → w < W) → scanRun n sdeps sc evs = true → ∃ sc', CInv n W sdeps s' sc' := by
+/-- histories of such events -/
+def FSteps (P : Prog V) (fl : Worker → Flags) : Sys V → List (Ev V) → Sys V → Prop
+  | s, [], s' => s = s'
+  | s, e :: es, s' => FClean fl e ∧ ∃ s1, accept P fl s e = some s1 ∧ FSteps P fl s1 es s'
+
+theorem fsteps_of_cleanSteps (P : Prog V) (fl : Worker → Flags) : ∀ (evs : List (Ev V)) (s s' : Sys V),
+    CleanSteps P fl s evs s' → FSteps P fl s evs s' := by
+  intro evs
   induction evs with
-  | nil => intro s s' sc h hs _ _; simp only [CleanSteps] at hs; subst hs; exact ⟨sc, h⟩
+  | nil => intro s s' h; simpa [CleanSteps, FSteps] using h
+  | cons e es ih =>
+    intro s s' h
+    simp only [CleanSteps] at h
+    obtain ⟨hc, s1, ha, hr⟩ := h
+    exact ⟨fclean_of_clean fl hc, s1, ha, ih s1 s' hr⟩
+
+/-- the scan ghost at the end of a history -/
+def scanFold (sdeps : Task → List Task) (kg : Worker → Bool) : Scan → List (Ev V) → Scan
+  | sc, [] => sc
+  | sc, e :: es => scanFold sdeps kg (scanStep sdeps kg sc e) es
+
+/-- the invariant along a whole history -/
+theorem fsteps_cinv (P : Prog V) (fl : Worker → Flags) (n W : Nat) (sdeps : Task → List Task) (evs : List (Ev V)) :
+    ∀ (s s' : Sys V) (sc : Scan), CInv n W sdeps fl s sc → FSteps P fl s evs s' →
+      (∀ e ∈ evs, ∀ w, evWorker e = some w → w < W) → scanRun n sdeps (kgOf fl) sc evs = true →
+      CInv n W sdeps fl s' (scanFold sdeps (kgOf fl) sc evs) := by
+  induction evs with
+  | nil => intro s s' sc h hs _ _; simp only [FSteps] at hs; subst hs; exact h
   | cons e es ih =>
     intro s s' sc h hs hw hg
-    simp only [CleanSteps] at hs
+    simp only [FSteps] at hs
     obtain ⟨hc, s1, ha, hr⟩ := hs
     simp only [scanRun, Bool.and_eq_true] at hg
     have h1 := accept_cinv P fl n W sdeps s s1 sc e h hc (hw e (by simp)) hg.1 ha
     exact ih s1 s' _ h1 hr (fun e' he' => hw e' (by simp [he'])) hg.2
 
-/-- from the invariant at quiescence to "every task has a result", by well-founded induction over the dependencies -/
-theorem complete_of_cinv (n W : Nat) (sdeps : Task → List Task) (hlt : ∀ t d, d ∈ sdeps t → d < t)
-    (s : Sys V) (sc : Scan) (h : CInv n W sdeps s sc) (hq : ∀ w, w < W → s.wk w = .exited 0) :
-    ∀ t, t < n → s.res t ≠ none := by
+/-- a task is blocked if its function has raised, or a (scan-)dependency is blocked -/
+inductive Blocked (sdeps : Task → List Task) (failedT : Task → Bool) : Task → Prop
+  | failed {t} : failedT t = true → Blocked sdeps failedT t
+  | dep {t d} : d ∈ sdeps t → Blocked sdeps failedT d → Blocked sdeps failedT t
+
+/-- from the invariant at quiescence to "every task has a result or is blocked", by well-founded induction over the dependencies -/
+theorem complete_of_cinv (n W : Nat) (sdeps : Task → List Task) (fl : Worker → Flags) (hlt : ∀ t d, d ∈ sdeps t → d < t)
+    (s : Sys V) (sc : Scan) (h : CInv n W sdeps fl s sc) (hq : ∀ w, w < W → ∃ c, s.wk w = .exited c) :
+    ∀ t, t < n → s.res t ≠ none ∨ Blocked sdeps sc.failedT t := by
   intro t
   induction t using Nat.strongRecOn with
   | _ t ih =>
     intro ht
-    rcases h.cov t ht with hA | ⟨d, hdm, hdn⟩ | ⟨w, hwlt, hwne, _⟩
-    · exact hA
+    rcases h.cov t ht with hA | ⟨d, hdm, hdn⟩ | hF | ⟨w, hwlt, hwne, _⟩
+    · exact Or.inl hA
     · have hdt := hlt t d hdm
-      exact absurd hdn (ih d hdt (Nat.lt_trans hdt ht))
-    · exact absurd (hq w hwlt) hwne
+      rcases ih d hdt (Nat.lt_trans hdt ht) with h1 | h1
+      · exact absurd hdn h1
+      · exact Or.inr (.dep hdm h1)
+    · exact Or.inr (.failed hF)
+    · obtain ⟨c, hc⟩ := hq w hwlt
+      exact absurd hc (hwne c)
+
+/-- in a failure-free history nothing is ever recorded as failed -/
+theorem scanFold_failedT_clean (sdeps : Task → List Task) (kg : Worker → Bool) : ∀ (evs : List (Ev V)) (sc : Scan),
+    (∀ e ∈ evs, Clean e) → (scanFold sdeps kg sc evs).failedT = sc.failedT := by
+  intro evs
+  induction evs with
+  | nil => intro sc _; rfl
+  | cons e es ih =>
+    intro sc hc
+    simp only [scanFold]
+    rw [ih _ (fun e' he' => hc e' (by simp [he']))]
+    have hce := hc e (by simp)
+    cases e with
+    | canLoad w0 t0 b => cases b <;> simp [scanStep, Scan.setDone]
+    | lock w0 t0 b => cases b <;> simp [scanStep, Scan.setDone]
+    | endExc w0 t0 => simp [Clean] at hce
+    | stop w0 k => simp [Clean] at hce
+    | load w0 t0 v => simp [scanStep, Scan.setDone]
+    | dump w0 t0 v => simp [scanStep, Scan.setDone]
+    | unlock w0 t0 => simp [scanStep]
+    | markFailed w0 t0 => simp [scanStep]
+    | begin_ w0 t0 => simp [scanStep]
+    | endOk w0 t0 v => simp [scanStep]
+    | exit w0 c => simp [scanStep]
+    | crash w0 => simp [scanStep]
+    | removeLocks => simp [scanStep]
+    | removeFailedLocks => simp [scanStep]
+
+theorem cleanSteps_all_clean (P : Prog V) (fl : Worker → Flags) : ∀ (evs : List (Ev V)) (s s' : Sys V),
+    CleanSteps P fl s evs s' → ∀ e ∈ evs, Clean e := by
+  intro evs
+  induction evs with
+  | nil => intro s s' _ e he; simp at he
+  | cons e es ih =>
+    intro s s' h e' he'
+    simp only [CleanSteps] at h
+    obtain ⟨hc, s1, _, hr⟩ := h
+    simp only [List.mem_cons] at he'
+    rcases he' with rfl | he'
+    · exact hc
+    · exact ih s1 s' hr e' he'
+
+theorem not_blocked_of_none (sdeps : Task → List Task) (t : Task) : ¬ Blocked sdeps (fun _ => false) t := by
+  intro h
+  induction h with
+  | failed h => simp at h
+  | dep _ _ ih => exact ih
 
 end Jug.Exec
